@@ -1,6 +1,6 @@
 // sysstep: run a command under ptrace, number the filesystem-mutating syscalls of the
 // main process (all its threads) globally, log them, and optionally SIGKILL the process at the
-// entry of the K-th one (-k K) or make the K-th one fail with errno E (-f K:E).
+// entry of the K-th one (-k K; -s SIG: send SIG, e.g. 15 or 2, instead of SIGKILL) or make the K-th one fail with errno E (-f K:E).
 #define _GNU_SOURCE
 #include <sys/ptrace.h>
 #include <sys/wait.h>
@@ -27,8 +27,8 @@ static void rdstr(pid_t pid, unsigned long addr, char*buf, size_t n){ buf[0]=0; 
   buf[r]=0; }
 static void fdpath(pid_t pid,int fd,char*buf,size_t n){ char p[64]; snprintf(p,sizeof p,"/proc/%d/fd/%d",pid,fd); ssize_t r=readlink(p,buf,n-1); buf[r<0?0:r]=0; }
 int main(int argc,char**argv){
-  long K=-1, FK=-1; int FE=EIO; const char*logp=NULL; int a=1;
-  for(;a<argc && argv[a][0]=='-';a++){ if(!strcmp(argv[a],"-k")) K=atol(argv[++a]); else if(!strcmp(argv[a],"-f")){ sscanf(argv[++a],"%ld:%d",&FK,&FE);} else if(!strcmp(argv[a],"-o")) logp=argv[++a]; else if(!strcmp(argv[a],"--")){a++;break;} }
+  long K=-1, FK=-1; int FE=EIO; int KSIG=SIGKILL; const char*logp=NULL; int a=1;
+  for(;a<argc && argv[a][0]=='-';a++){ if(!strcmp(argv[a],"-k")) K=atol(argv[++a]); else if(!strcmp(argv[a],"-s")) KSIG=atoi(argv[++a]); else if(!strcmp(argv[a],"-f")){ sscanf(argv[++a],"%ld:%d",&FK,&FE);} else if(!strcmp(argv[a],"-o")) logp=argv[++a]; else if(!strcmp(argv[a],"--")){a++;break;} }
   FILE*lg = logp?fopen(logp,"w"):stderr;
   pid_t child=fork();
   if(child==0){ ptrace(PTRACE_TRACEME,0,0,0); raise(SIGSTOP); execvp(argv[a],argv+a); perror("exec"); _exit(127);}
@@ -55,7 +55,7 @@ int main(int argc,char**argv){
             case SYS_write: case SYS_pwrite64: { fdpath(tid,r.rdi,p1,sizeof p1); if(p1[0]=='/' && (strncmp(p1,"/dev/",5)||!strncmp(p1,"/dev/shm/",9)) && strncmp(p1,"/proc/",6)){ snprintf(p2,sizeof p2,"%lu",(unsigned long)r.rdx); mut=1; nm="write"; } break; }
           }
           if(mut){ count++; fprintf(lg,"%ld\t%s\t%s\t%s\n",count,nm,p1,p2); fflush(lg);
-            if(count==K){ fprintf(lg,"KILL at %ld\n",count); fflush(lg); kill(child,SIGKILL); /* whole thread group */ }
+            if(count==K){ fprintf(lg,"KILL at %ld\n",count); fflush(lg); kill(child,KSIG); /* whole thread group */ }
             else if(count==FK){ r.orig_rax=-1; ptrace(PTRACE_SETREGS,tid,0,&r); T[i].inject=FE; fprintf(lg,"FAULT at %ld errno %d\n",count,FE); fflush(lg);} }
         }
       } else { T[i].insys=0; if(T[i].inject){ r.rax=-(long)T[i].inject; ptrace(PTRACE_SETREGS,tid,0,&r); T[i].inject=0; } }
